@@ -132,6 +132,8 @@ def main():
                 "(regress-* are reverts of fix commits).\n\n| seed | breaks | confirmed | detected by (rules) | analysis errors |\n|---|---|---|---|---|\n")
         for m in rows:
             det = "; ".join(f"{c}: {', '.join(r_[:3])}" for c, r_ in sorted(m["detected_by"].items())) or "**missed**"
+            if str(m["property"]).startswith(("none", "benign")):
+                det = "silent in every check (as required)" if not m["detected_by"] and not m["analysis_errors"] else "**FALSE ALARM** " + det
             err = "; ".join(sorted(m["analysis_errors"])) or ""
             f.write(f"| {m['id']} | {m['property']} | {'yes' if m['confirmed'] else 'NO'} | {det} | {err} |\n")
     hit = sum(1 for m in rows if m["detected_by"])
